@@ -273,7 +273,9 @@ def finish(spec, tier, seed, proof, out, problems, binp, t0, ncases, extra_cov=N
     }
     if extra_cov:
         cov.update(extra_cov)
-    write_evidence(prop, tier, seed, "proof", cov,
+    if getattr(spec, "level", "proof") != "proof":
+        cov["explanation"] = getattr(spec, "explanation", "")
+    write_evidence(prop, tier, seed, getattr(spec, "level", "proof"), cov,
                    assumptions or ["see coverage.trusted_base"], time.time() - t0, nviol)
     for l in lines:
         print(l)
